@@ -1,6 +1,7 @@
 import PV.Model.ShmBuffer
 import PV.Spec.Queue
 import PV.Lemmas.ShmBuffer
+import PV.Generated.ShmBuffer
 /-!
 # C08 — the shared-memory buffer is one bounded FIFO byte queue
 
@@ -112,6 +113,15 @@ theorem run_refines {M : Nat} (ops : List Op) (s : Shared) (wf : WF M s) :
       obtain ⟨s', outs, h2, wf2, e2⟩ := ih s wf
       refine ⟨s', .num (freeSpace M s) :: outs, by simp [run, step, h2], wf2, ?_⟩
       simp [specRun, specStep, e2, free_is_capacity_minus_length wf]
+
+/-! ## concurrent reads and writes are atomic with respect to each other
+
+Every operation of `pshmbuffer.c` touches the shared segment only between `p_shm_lock` and
+`p_shm_unlock` of the per-name lock, on every path (a fact the translator re-derives from the
+current source by walking the statement tree of each function).  With the lock being one system-wide
+mutex per name (C07 `lock_is_mutex`) concurrent operations are therefore serialised, and each one is
+the sequential step proved above. -/
+theorem ops_bracketed_by_lock : Generated.shmBufferOpsBracketed = true := by decide
 
 /-! ## handles opened with a *different* size argument (finding F6)
 
